@@ -271,6 +271,15 @@ def fit_lsq(prog, rep):
         if kind == "est" and isinstance(st.value.args[3], ast.Name):
             wname = st.value.args[3].id
     defs = rd.reaching(wname, at) if wname else []
+    # an unconditional renormalisation ``w = w / np.sum(w)`` after the branch ladder is behaviour preserving: look through it
+    for _ in range(3):
+        if len(defs) == 1 and defs[0].kind == "assign" and not pcs.of(defs[0].stmt):
+            tnorm = b.def_term(defs[0])
+            prev = b.name(wname, defs[0].stmt, {})
+            if tnorm == ("bin", "/", prev, ("call", G("numpy.sum"), (prev,), ())):
+                defs = rd.reaching(wname, defs[0].stmt)
+                continue
+        break
     raises = [st for st in cfg.all_stmts() if isinstance(st, ast.Raise)]
     xk = lambda k: ("bin", "**", x_t, ("const", k)) if k > 1 else x_t
     expected = {"none": "const", "linear": 1, "quadratic": 2, "cubic": 3}
